@@ -1,0 +1,31 @@
+//go:build verif
+
+package polling
+
+import (
+	"time"
+
+	"github.com/karagenc/socket.io-go/engine.io/parser"
+	"github.com/karagenc/socket.io-go/internal/verifhook"
+)
+
+// VerifPollQueue exposes the unexported pollQueue to the verification harness.
+type VerifPollQueue struct{ pq *pollQueue }
+
+func VerifNewPollQueue() *VerifPollQueue { return &VerifPollQueue{pq: newPollQueue()} }
+
+func (q *VerifPollQueue) Poll(pollTimeout time.Duration) []*parser.Packet {
+	return q.pq.poll(pollTimeout)
+}
+func (q *VerifPollQueue) Add(packets ...*parser.Packet) { q.pq.add(packets...) }
+func (q *VerifPollQueue) Get() []*parser.Packet         { return q.pq.get() }
+func (q *VerifPollQueue) Len() int                      { return q.pq.len() }
+
+// ReadyLen is the number of wake-up tokens pending in the `ready` channel.
+func (q *VerifPollQueue) ReadyLen() int { return len(q.pq.ready) }
+
+// ReadyCap is the capacity of the `ready` channel.
+func (q *VerifPollQueue) ReadyCap() int { return cap(q.pq.ready) }
+
+// VerifSetYieldHandler installs the handler called at every verifhook.Yield point.
+func VerifSetYieldHandler(fn func(point string)) { verifhook.SetHandler(fn) }
